@@ -40,6 +40,11 @@ var zzTables = [][]zzOp{
 	{zzH("/{a}/{b}/{c}/1", "GET"), zzH("/{a}/{b}/2", "GET"), zzH("/{a}/3", "GET"), zzH("/{a}/{b:\\d+}/{c}/4", "GET")},
 	// 8: indexed parent, a handler-less branch is pruned over two removals
 	{zzH("/m/1", "GET"), zzH("/m/2", "GET"), zzH("/m/3", "GET"), zzH("/m/4", "GET"), zzH("/m/5", "GET"), zzH("/m/6a", "GET"), zzH("/m/6b", "GET"), zzH("/m/{id}", "GET"), zzRm("/m/6a"), zzRm("/m/6b")},
+	// 9: the same with literal siblings only (the pruned branch was the last child)
+	{zzH("/m/1", "GET"), zzH("/m/2", "GET"), zzH("/m/3", "GET"), zzH("/m/4", "GET"), zzH("/m/5", "GET"), zzH("/m/6", "GET"), zzH("/m/7a", "GET"), zzH("/m/7b", "GET"), zzRm("/m/7a"), zzRm("/m/7b")},
+	// 10, 11: the tail of a split node equals the text of an existing sibling (literal / below a parameter)
+	{zzH("/a/u", "GET"), zzH("/a/su", "POST"), zzH("/a/sv", "GET")},
+	{zzH("/p/d", "GET"), zzH("/p/{id}/d", "GET"), zzH("/p/{id}/c", "POST"), zzH("/p/{id}", "DELETE")},
 }
 
 var zzMethods = []string{"GET", "HEAD", "POST", "OPTIONS", "DELETE", "PUT", "TRACE", "", "BOGUS"}
